@@ -40,6 +40,26 @@ CHECKS = {
    text="Child processes run the real credential manager and are cut off by RLIMIT_FSIZE=k (write error EFBIG, or death by SIGXFSZ) for EVERY k in 0..len(document)+1 of the save, for several store sizes and operations; the parent reloads the file with a fresh manager (must be the old or the new set; after a failed save memory keeps the new set and a later save repairs the file). Shutdown phases of the save debounce (queued, picked up, cooling down, at hook points before/after the save with late changes) are walked on a virtual clock: after Stop the file holds the acknowledged set.",
    note="Crash = process death / write error; kernel page-cache loss (power failure) is not modelled. Hook-directed phases need the verif build tag.",
    tech="runtime monitoring: exhaustive crash-point injection in child processes + hook-directed shutdown schedules (synctest)"),
+ "C07": dict(cat="exploration",
+   text="Real client <-> real server of SOCKS5 / HTTP CONNECT / Shadowsocks-none over a re-segmenting transport: every address kind and length, credentials over all byte values, method lists 1..255 with the acceptable method at every position, every dial-result code, negative authentication scripts, handshake bytes cut at every single/double position, data coalesced with the handshake in both directions; address/username re-read after Proceed/Abort.",
+   note="Sampled beyond the enumerated cut points and list positions; TLS and the non-CONNECT HTTP path are covered by C16, not here.",
+   tech="runtime monitoring: request/reply equality and transparent-stream oracle over recorded handshakes"),
+ "C09": dict(cat="exploration",
+   text="Random router configurations (every criterion kind absent/present/inverted, three port representations, domain sets incl. nested suffix rules, prefix sets, expected-IP rules, named resolvers) built with the real router.Config.Router and queried with random and boundary requests under scripted resolver behaviour; answers compared with an independent ~150-line model written from the RouteConfig documentation.",
+   note="GeoIP criteria excluded (no MaxMind DB offline); documented don't-cares counted in the evidence.",
+   tech="runtime monitoring: differential testing of the real router against an independent reference model"),
+ "C10": dict(cat="exploration",
+   text="Random rule sets across matcher thresholds compared over every representation (text, gob, conversions, every explicit builder, the real converter binary as a child, every insertion order of small suffix sets) against a naive matcher on vocabulary-derived probes; port sets: all 65535 ports vs a boolean-array model for bit set / range list / single port; prefix sets: write/reload vs linear Prefix.Contains.",
+   note="Ports are exhaustive per set; domain/prefix inputs sampled.",
+   tech="runtime monitoring: cross-representation agreement with a naive reference matcher"),
+ "C11": dict(cat="exploration",
+   text="The real service manager on loopback sockets for every (server protocol x client protocol incl. direct) pair and both batch modes: concurrent sessions send tagged datagrams to IP and domain targets (scripted resolver incl. a failing resolution), SS2022 client address change, unparsable garbage interleaved; observed at target and client sockets: no misdelivery / duplication / corruption, replies only to the owner with the true source, garbage starts nothing; plus a race-detector stress part.",
+   note="Closed-loop delivery on loopback assumed loss-free; virtual clock frozen while traffic flows (GC disabled in ft children).",
+   tech="runtime monitoring: exactly-once / right-destination oracle over tagged datagrams on real sockets (faketime + race detector)"),
+ "C15": dict(cat="exploration",
+   text="Seeded concurrent scripts of Write/Read/WriteTo/CloseWrite/CloseRead/Close/Set*Deadline from 2-4 goroutines per end on the real pipe inside synctest bubbles; byte j of write w identifies its write; call/return stamped from one logical counter; a history oracle decides only happens-before pairs (runs per write, no interleaving, close and deadline rules in virtual time, deadlock detection); plus a lock-step sequential part with an exact model.",
+   note="Concurrent writers combined with starving readers are not explored (mutex waiters are not durably blocked for synctest).",
+   tech="runtime monitoring: history checker over recorded call/return events on a virtual clock (race detector)"),
 }
 
 PENDING_DEFAULT = "check under construction in this session (design in DESIGN.md §4); not claimed until its monitor runs clean on the unchanged tree"
